@@ -168,10 +168,37 @@ class Run:
         for fn in self.fns:
             for f in self.reads(fn):
                 rd.setdefault(f, set()).add(fn.base)
+        # reset-first: a member the entry method itself resets must be reset *before* the run touches it - a
+        # reset placed only in front of the success return leaves the state of a failed run to the next one
+        touches = {fn.key: {f for b, f, kind in eff[fn.key] if kind == "grow"} | self.reads(fn) for fn in self.fns}
+        ch = True
+        while ch:
+            ch = False
+            for fn in self.fns:
+                for b, g in self.calls[fn.key]:
+                    new = touches[g.key] - touches[fn.key]
+                    if new:
+                        touches[fn.key] |= new
+                        ch = True
+        late = {}
+        E = self.entry
+        for f in fields:
+            rb = {b for b, ff, kind in eff[E.key] if ff == f and kind == "reset"}
+            if not rb:
+                continue
+            tb = {b for b, ff, kind in eff[E.key] if ff == f and kind == "grow"}
+            tb |= {b for b, g in self.calls[E.key] if f in touches[g.key]}
+            tb -= rb
+            if not tb:
+                continue
+            reach = E.reachable(removed_blocks=rb) | {E.entry}
+            hit = sorted(tb & reach) if E.entry not in rb else []
+            if hit:
+                late[f] = hit
         res = {}
         for f, where in fields.items():
             res[f] = {"mutated_in": sorted(where), "reset": f in must[self.entry.key],
-                      "read_in": sorted(rd.get(f, ()))}
+                      "read_in": sorted(rd.get(f, ())), "reset_after_use": f in late}
         return res
 
     def _must_pass(self, fn, pass_blocks):
